@@ -21,3 +21,8 @@ static inline struct BuildEngineImpl_TaskInfo *verif_pending_task_info(struct Bu
 static inline void DependencyKeyIDs_push_back3(struct DependencyKeyIDs *d, struct KeyID id, _Bool orderOnly, _Bool singleUse) {
   __CPROVER_assert(d->items.len < d->items.cap, "dependency list model: room for one more element (ghost capacity)");
   d->items.ptr[d->items.len].keyID = id; d->items.ptr[d->items.len].orderOnly = orderOnly; d->items.ptr[d->items.len].singleUse = singleUse; d->items.len = d->items.len + 1; }
+/* TaskInterface entry points */
+unsigned g_aborts, g_add_calls; uintptr_t g_add_id; _Bool g_add_order_only, g_add_single_use; const void *g_add_key; uint64_t g_dep_key_id;
+static inline void verif_abort(void) { g_aborts++; __CPROVER_assume(0); }
+static inline struct BuildEngineImpl_RuleInfo *verif_rule_for_key_text(struct BuildEngineImpl *self, const void *key) { return g_ri_b; }
+static inline struct KeyID verif_key_id(struct BuildEngineImpl *self, const void *key) { struct KeyID k; k._value = g_dep_key_id; return k; }
